@@ -217,5 +217,25 @@ def generate():
     out.append(nat_prop("fixedAppendFits", ["avail", "len"], guards.pop(),
                         "`FixedBuffer::append`: the bytes are copied iff (otherwise the call does nothing)"))
 
+    # ------------------------------------------------------------------ thread-safe wrappers
+    # `append` and `flush` are the only public entry points that touch the file; with threadSafe=true both must do
+    # all their work under *mutex_ (AppendFile writes with fwrite_unlocked: the stdio lock protects nothing)
+    def wrapper_locks(name, inner):
+        fn = the_function(lf, name)
+        stmts = [k for k in kids(body_of(fn))]
+        ifs = [k for k in stmts if k.get("kind") == "IfStmt"]
+        others = [k for k in stmts if k.get("kind") != "IfStmt" and any(x.get("kind") in ("CXXMemberCallExpr", "CallExpr") for x in walk(k))]
+        if len(ifs) != 1 or others or not mentions(if_cond(ifs[0]), "mutex_"):
+            return False
+        then = kids(ifs[0])[1]
+        tk = [k for k in kids(then)] if then.get("kind") == "CompoundStmt" else [then]
+        # first statement of the locked branch declares the guard, the work follows it in the same block
+        if not tk or tk[0].get("kind") != "DeclStmt" or "MutexLockGuard" not in str(tk[0]):
+            return False
+        return any(calls_named(k, inner) for k in tk[1:])
+    out.append("/-- `LogFile::append` does its work (`append_unlocked`) under `*mutex_` when the file is thread safe -/\n"
+               "def appendLocks : Bool := %s\n" % ("true" if wrapper_locks("append", "append_unlocked") else "false"))
+    out.append("/-- `LogFile::flush` flushes under `*mutex_` when the file is thread safe -/\n"
+               "def flushLocks : Bool := %s\n" % ("true" if wrapper_locks("flush", "flush") else "false"))
     out.append("end MuduoVerif.Gen.LogFile\n")
     return "\n".join(out)
